@@ -4,7 +4,7 @@
    over a chunk schedule). Spec: Spec/Framing.v `ref_frames` (cut by the length field only). *)
 From Coq Require Import NArith List.
 From Rodbus Require Import Base.Outcome Base.Frame Model.Buffer Model.Mbap Model.Reader Spec.Framing Model.FramingEval
-  Gen.Consts Gen.ParserShape Proofs.BufferProofs Proofs.ReaderGeneric Proofs.MbapProofs Proofs.C05Proofs Proofs.ShapeProofs.
+  Gen.Consts Gen.ParserShape Gen.ClientFatal Proofs.BufferProofs Proofs.ReaderGeneric Proofs.MbapProofs Proofs.C05Proofs Proofs.ShapeProofs.
 Import ListNotations.
 
 (* For EVERY byte stream s and EVERY way of cutting it into network reads (each read hands over
@@ -156,6 +156,26 @@ Theorem C05_parser_shape : forall st b, wf b -> st_ok st ->
      end in (st', b', lift_s r)).
 Proof. exact mbap_model_shape. Qed.
 Print Assumptions C05_parser_shape.
+
+(* THE CLIENT ENDS THE CONNECTION AT A MALFORMED HEADER. Gen/ClientFatal.v lists, regenerated from client/task.rs
+   SessionError::from_request_err, for every FrameParseError kind (and Io) whether a request error of that kind also
+   ends the client session. Every one does; so after any complete frames a header with protocol id <> 0, length 0 or
+   length > 254 makes the reader report BadFrame exactly there AND the client end the connection: nothing behind it
+   is interpreted, in flight or idle, whatever follows. *)
+Theorem C05_client_framing_errors_fatal : (forall k, frame_error_ends_session k = true) /\ io_error_ends_session = true.
+Proof. exact client_framing_errors_fatal. Qed.
+Print Assumptions C05_client_framing_errors_fatal.
+Theorem C05_client_ends_at_malformed_header : forall pre fs h rest chunks fi,
+  framed pre fs -> bad_header h -> concat chunks = pre ++ h ++ rest -> Forall (fun c => c <> []) chunks ->
+  exists e, run_session KTcp false chunks fi = (map IFrame fs, EndBad e) /\ client_connection_survives (EndBad e) = false.
+Proof. exact client_ends_at_malformed_header. Qed.
+Print Assumptions C05_client_ends_at_malformed_header.
+
+(* every error exit of the MBAP parser leaves it in its initial state (no stale-state analogue of the RTU parser's
+   ReadFullBody after a too long frame; next_frame's parser.reset() on error is a no-op for MBAP) *)
+Theorem C05_error_exit_state : forall st b st' b' e, wf b -> st_ok st -> mbap_parse st b = (st', b', Err e) -> st' = Begin.
+Proof. exact mbap_error_leaves_begin. Qed.
+Print Assumptions C05_error_exit_state.
 
 (* Client role: ONE reader serves all connections of a channel and ClientLoop::run resets it when
    a connection starts (the repaired F5). Whatever state an earlier connection left behind, every
